@@ -355,9 +355,53 @@ def process_digi_subbranch(org_arr: ak.Array) -> ak.Array:
     return ak.zip(fields)
 
 
+def process_digi_subbranch_form(org_form: awkward.forms.Form) -> awkward.forms.Form:
+    """
+    Form-level counterpart of `process_digi_subbranch`: merges the fields of the `TRawData`
+    record form into the top level, so that the form announced for lazy (dask) reading
+    matches the arrays returned by `Bes3Interpretation.final_array`.
+    """
+    if not isinstance(org_form, awkward.forms.ListOffsetForm):
+        return org_form
+
+    rec_form = org_form.content
+    if not isinstance(rec_form, awkward.forms.RecordForm) or not rec_form.fields:
+        return org_form
+
+    assert "TRawData" in rec_form.fields, "TRawData not found in the input form"
+
+    fields = {}
+    for field_name, field_form in zip(rec_form.fields, rec_form.contents):
+        if field_name == "TRawData":
+            for raw_field_name, raw_field_form in zip(field_form.fields, field_form.contents):
+                fields[raw_field_name] = raw_field_form
+        else:
+            fields[field_name] = field_form
+
+    return awkward.forms.ListOffsetForm(
+        org_form.offsets,
+        awkward.forms.RecordForm(list(fields.values()), list(fields.keys())),
+        parameters=org_form.parameters,
+    )
+
+
 #############################################
 # Main function
 #############################################
+def _is_digi_subbranch(full_branch_path: str) -> bool:
+    full_branch_path = full_branch_path.replace("/Event:", "")
+    evt_name, subbranch_name = full_branch_path.split("/")
+    return evt_name == "TDigiEvent" and subbranch_name != "m_fromMc"
+
+
+def preprocess_subbranch_form(full_branch_path: str, org_form: awkward.forms.Form) -> awkward.forms.Form:
+    if _is_digi_subbranch(full_branch_path):
+        return process_digi_subbranch_form(org_form)
+
+    # Default return
+    return org_form
+
+
 def preprocess_subbranch(full_branch_path: str, org_arr: ak.Array) -> ak.Array:
     full_branch_path = full_branch_path.replace("/Event:", "")
     evt_name, subbranch_name = full_branch_path.split("/")
@@ -403,6 +447,12 @@ class Bes3Interpretation(AsCustom):
         # preprocess awkward array and return
         full_branch_path = regularize_object_path(branch.object_path)
         return preprocess_subbranch(full_branch_path, arr)
+
+    def awkward_form(self, file, *args, **kwargs):
+        # the form announced for lazy reading must include the post-processing of final_array
+        form = super().awkward_form(file, *args, **kwargs)
+        full_branch_path = regularize_object_path(self._branch.object_path)
+        return preprocess_subbranch_form(full_branch_path, form)
 
     @property
     def typename(self) -> str:
